@@ -117,7 +117,9 @@ def loadSession (toks : List String) : SessRes :=
     match (look kv "oti").bind parseOti, (look kv "w").bind (·.toNat?), (look kv "ro").bind parseBool,
           (look kv "maxc").bind (·.toNat?) with
     | some doti, some w, some ro, some maxc =>
-      let rc : RxCfg := { receiveOnce := ro, maxSize := if maxc = 0 then 10 * 1024 * 1024 else maxc }
+      -- object_max_cache_size bounds the bytes of the allocated blocks and of the packet cache alike
+      let cap := if maxc = 0 then 10 * 1024 * 1024 else maxc
+      let rc : RxCfg := { receiveOnce := ro, maxSize := cap, pktCap := some cap }
       -- objects
       let osecs := secs.filter (fun s => s.head? == some "o")
       let fsec := (secs.find? (fun s => s.head? == some "f")).map (·.drop 1)
@@ -144,7 +146,10 @@ def loadSession (toks : List String) : SessRes :=
                     some (some { toi := toi, scheme := oti.sch, ks := ks, blen := blen, p := oti.p,
                                  inbandFti := oti.ifti, transfers := m, carousel := car != "-",
                                  noCache := cc == "nocache",
-                                 streamSrc := src == "stream" || src == "file" || src == "sparse" }, true, ref)
+                                 streamSrc := src == "stream" || src == "file" || src == "sparse",
+                                 -- datagram lengths (input: header sizes are not modelled)
+                                 pktLen := ((look kv "pl").bind (·.toNat?)).getD 0,
+                                 lastPktLen := ((look kv "pll").bind (·.toNat?)).getD 0 }, true, ref)
           | _, _ => none
         | _, _, _, _, _, _, _ => none)
       let fdtRes : Option (List FdtCfg) := (fsec.getD []).mapM (fun t =>
@@ -194,27 +199,10 @@ def showObs (l : Loaded) (ps : List Pkt) : String :=
     s!" {o.toi}:o{st.opens}c{st.completes}e{st.errors}i{st.interrupts}")
   s!"fdt={nf}" ++ String.join parts
 
-/-- end (exclusive) of the first full cycle starting at position `i`: for the FDT and every
-    carouselled object one complete transfer begun at or after `i` (a transfer begins with the
-    packet (0, 0) and ends right before the source's next (0, 0) packet) -/
+/-- end (exclusive) of the first full cycle starting at position `i` (`Session.cycleEnd`, the function the
+    C16 theorem `late_join_within_two_cycles` is about): sources = the FDT and every carouselled object -/
 def cycleEnd (l : Loaded) (i : Nat) : Option Nat :=
-  let srcs : List Nat := 0 :: (l.objs.filter (·.carousel)).map (·.toi)
-  let idx := (List.range l.stream.length).zip l.stream
-  srcs.foldl (fun acc src =>
-    match acc with
-    | none => none
-    | some e =>
-      -- scan: (start seen?, last index, closed?)
-      let r := idx.foldl (fun (st : Option Nat × Bool) (np : Nat × Pkt) =>
-        let (n, p) := np
-        if st.2 || n < i || p.toi != src then st else
-        let isStart := p.sbn == 0 && p.esi == 0
-        match st.1 with
-        | none => if isStart then (some n, false) else st
-        | some last => if isStart then (some last, true) else (some n, false)) (none, false)
-      match r with
-      | (some last, true) => some (max e (last + 1))
-      | _ => none) (some i)
+  Flute.Session.cycleEnd (0 :: (l.objs.filter (·.carousel)).map (·.toi)) l.stream i
 
 def step (st : St) (args : List String) : St × String :=
   match args with
